@@ -1,2 +1,4 @@
 import NetqasmVerif.Model.Basic
 import NetqasmVerif.Model.Codec
+import NetqasmVerif.Model.Asm
+import NetqasmVerif.Model.AsmText
